@@ -136,6 +136,8 @@ where
     clock0: i32,
     next_id: u32,
     dropped_iter_before: bool,
+    max_values: i64,
+    tmax: i64,
 }
 
 macro_rules! trace {
@@ -228,6 +230,8 @@ where
         clock0,
         next_id: 0,
         dropped_iter_before: false,
+        max_values: case.get_i64("max_values", i64::MAX),
+        tmax: case.get_i64("Tmax", i64::MAX),
     };
     if r.lay.shift > 0 {
         r.out.class("domain_wider_than_32");
@@ -372,6 +376,11 @@ where
             S_ADV => {
                 let d = op.args[0].rem_euclid(1 << 16) as i32;
                 let t = self.clock;
+                if (t as i64 - self.clock0 as i64) + d as i64 > self.tmax {
+                    self.out.degraded += 1;
+                    self.out.callbacks.push(0);
+                    return Step::Continue;
+                }
                 self.clock = t.saturating_add(d);
                 self.out.callbacks.push(0);
                 trace!(self, "#{} advance clock {} -> {}", i, t, self.clock);
@@ -427,6 +436,16 @@ where
     }
 
     fn insert(&mut self, i: usize, lo: i64, hi: i64, exp: i32) -> Step {
+        if self.max_values != i64::MAX {
+            let mut ids: Vec<u32> = self.tree.verif_copies().iter().map(|(_, _, v)| v.id).collect();
+            ids.sort();
+            ids.dedup();
+            if ids.len() as i64 >= self.max_values {
+                self.out.degraded += 1;
+                self.out.callbacks.push(0);
+                return Step::Continue;
+            }
+        }
         self.next_id += 1;
         let id = self.next_id;
         let val = SegVal { id, exp };
